@@ -775,6 +775,25 @@ func (f *flow) cond(e ast.Expr, s *astate) (t, fa []*astate) {
 		miss := s.clone()
 		return []*astate{hit}, []*astate{miss}
 	}
+	if b, ok := e.(*ast.BinaryExpr); ok && (b.Op == token.EQL || b.Op == token.NEQ) {
+		// position (or a snapshot) compared with a snapshot: "has anything been consumed since"
+		if l, okL := f.valueTerm(b.X, s); okL {
+			if r, okR := f.valueTerm(b.Y, s); okR && (f.isObj(b.X, "position") || f.isObj(b.Y, "position")) {
+				eq, ne := posCompare(l, r)
+				var ts, fs []*astate
+				if eq {
+					ts = append(ts, s.clone())
+				}
+				if ne {
+					fs = append(fs, s.clone())
+				}
+				if b.Op == token.NEQ {
+					ts, fs = fs, ts
+				}
+				return ts, fs
+			}
+		}
+	}
 	if name, obj, args, ok := f.callOf(e); ok {
 		switch {
 		case strings.HasPrefix(name, "__c"):
@@ -980,4 +999,38 @@ func tokDerived(t, base string) bool {
 		}
 	}
 	return false
+}
+
+// posCompare: can two position terms be equal / differ? Terms are nested
+// wrappers around an earlier term: A{…}(t) and Str[…](t) lie strictly behind t,
+// S…(t) and R…(t) (a child or rule that succeeded at t) at or behind it.
+func posCompare(l, r string) (canEq, canNe bool) {
+	if l == r {
+		return true, false
+	}
+	if l == "?" || r == "?" {
+		return true, true
+	}
+	long, short := l, r
+	if len(r) > len(l) {
+		long, short = r, l
+	}
+	// peel wrappers off the longer term until the shorter one is reached
+	strict := false
+	t := long
+	for t != short {
+		i := strings.Index(t, "(")
+		if i < 0 || !strings.HasSuffix(t, ")") {
+			return true, true // unrelated terms
+		}
+		head := t[:i]
+		if strings.HasPrefix(head, "A{") || strings.HasPrefix(head, "Str[") {
+			strict = true
+		}
+		t = t[i+1 : len(t)-1]
+	}
+	if strict {
+		return false, true
+	}
+	return true, true
 }
